@@ -18,7 +18,7 @@ From Coq Require Import List NArith ZArith Bool.
 From Atlas Require Import Base.Bytes Hcl.Str Hcl.RegistryDefs Hcl.Registry
   Hcl.TypesSqlite Hcl.SqliteProofs gen.Gen_Registry_sqlite
   Hcl.TypesMysql Hcl.MysqlProofs Hcl.MysqlValuesProofs gen.Gen_Registry_mysql gen.Gen_Registry_postgres Hcl.RegistryWf
-  Hcl.TypesPg Hcl.PgProofs.
+  Hcl.TypesPg Hcl.PgProofs Hcl.RegistryRoundtrip.
 Import ListNotations.
 
 (** * SQLite *)
@@ -226,3 +226,54 @@ Example C15_ex_valid_spec :
   valid_spec (mkSpec "x" "x" [mkAttr "a" KInt false; mkAttr "b" KInt true] "" false false false) = false /\
   valid_spec (mkSpec "x" "x" [mkAttr "a" KInt true; mkAttr "b" KSlice false] "" false false false) = true.
 Proof. vm_compute. auto. Qed.
+
+(** * C15_registry_roundtrip, the print / eval half (generic over every registry)
+
+    Full statement (not proved): for every spec of the three registries and every parameter
+    valuation, Type (eval (print (Convert t))) is FormatType-equal to t. What is proved here is the
+    inversion of the HCL type-expression printer by the evaluator (hclType / typeFuncSpec /
+    typeFuncSpecImpl), for EVERY registry with unique T and Name keys (the finite side condition
+    C15_registry_wf_partial establishes for the three dumped registries), every spec and every
+    valuation, in the two shapes that need no optional / variadic argument:
+    - a type without attributes of a spec without required arguments prints as the bare name and
+      evaluates back to itself;
+    - a type carrying exactly the positional (required, non-variadic) arguments of its spec, with
+      values of the declared kinds, prints as name(v1,...,vn) and evaluates back to itself.
+    PARTIAL: optional trailing arguments, the variadic (slice) argument, the `unsigned` column
+    attribute, Convert (field reflection, zero-skipping) and Type (PrintType + ParseType) are not
+    in these lemmas; they are covered by the tie and the oracle (the zero-skipping of Convert is
+    the source of known findings 3, 4 and 7). *)
+Theorem C15_registry_roundtrip_bare_partial :
+  forall reg fmt spec,
+    nodup_b (map ts_T reg) = true -> nodup_b (map ts_name reg) = true -> In spec reg ->
+    ts_fmt_custom spec = false -> type_func_req_args spec = [] ->
+    hcl_type reg fmt {| h_T := ts_T spec; h_attrs := [] |} = Ok (PExpr (HIdent (ts_name spec))) /\
+    hcl_eval reg (HIdent (ts_name spec)) = Ok {| h_T := ts_T spec; h_attrs := [] |}.
+Proof. exact RegistryRoundtrip.bare_roundtrip. Qed.
+Print Assumptions C15_registry_roundtrip_bare_partial.
+
+Theorem C15_registry_roundtrip_positional_partial :
+  forall reg fmt spec fargs vs,
+    nodup_b (map ts_T reg) = true -> nodup_b (map ts_name reg) = true -> In spec reg ->
+    ts_fmt_custom spec = false ->
+    type_func_args spec = fargs -> fargs <> [] ->
+    forallb ta_required fargs = true ->
+    forallb (fun p => negb (kind_eqb (ta_kind p) KSlice)) fargs = true ->
+    nodup_b (map ta_name fargs) = true ->
+    length vs = length fargs ->
+    forallb (fun '(p, v) => aval_kind_ok (ta_kind p) v) (combine fargs vs) = true ->
+    forallb RegistryRoundtrip.not_list vs = true ->
+    let typ := {| h_T := ts_T spec; h_attrs := RegistryRoundtrip.zip_attrs fargs vs |} in
+    hcl_type reg fmt typ = Ok (PExpr (HCall (ts_name spec) vs)) /\
+    hcl_eval reg (HCall (ts_name spec) vs) = Ok typ.
+Proof. exact RegistryRoundtrip.positional_roundtrip. Qed.
+Print Assumptions C15_registry_roundtrip_positional_partial.
+
+Example C15_ex_registry_roundtrip :
+  let s := mkSpec "vc" "varchar" [mkAttr "size" KInt true] "" false false false in
+  hcl_type [s] (fun _ _ => Err) {| h_T := bs "varchar"; h_attrs := [{| a_K := bs "size"; a_V := AInt 255 |}] |}
+    = Ok (PExpr (HCall (bs "vc") [AInt 255])) /\
+  hcl_eval [s] (HCall (bs "vc") [AInt 255])
+    = Ok {| h_T := bs "varchar"; h_attrs := [{| a_K := bs "size"; a_V := AInt 255 |}] |} /\
+  hcl_eval [s] (HIdent (bs "vc")) = Err.
+Proof. vm_compute. repeat split; reflexivity. Qed.
